@@ -80,6 +80,17 @@ type Net struct {
 	keepSent bool
 	// Accepts counts inbound TCP connections per listener endpoint name.
 	accepts map[string]int
+	subs    []chan *Obs
+}
+
+// Subscribe returns a channel that receives every observation from now on
+// (never blocks the recorder: a full channel drops for that subscriber only).
+func (n *Net) Subscribe(buf int) chan *Obs {
+	ch := make(chan *Obs, buf)
+	n.mu.Lock()
+	n.subs = append(n.subs, ch)
+	n.mu.Unlock()
+	return ch
 }
 
 // NewNet creates the observation hub.
@@ -101,8 +112,15 @@ func (n *Net) record(o *Obs) {
 	n.mu.Lock()
 	n.obs = append(n.obs, o)
 	n.byCase[o.CaseID] = append(n.byCase[o.CaseID], o)
+	subs := n.subs
 	n.cond.Broadcast()
 	n.mu.Unlock()
+	for _, ch := range subs {
+		select {
+		case ch <- o:
+		default:
+		}
+	}
 }
 
 func (n *Net) logSent(s *Sent) {
